@@ -1256,6 +1256,83 @@ func TestVerifC14(t *testing.T) {
 	vlib.Check(t, "C14", func(rt *rapid.T, c *vlib.Case) { c14Prop(rt, c, t, open) })
 }
 
+// FuzzVerifC14 is the coverage-guided campaign (thorough tier): the same oracle over byte strings mutated
+// by go's native fuzzer. The starting corpus is a set of examples of the structured generator above plus the
+// reproducers of the repaired findings, so that the mutations start inside the grammar.
+func FuzzVerifC14(f *testing.F) {
+	open := vlib.OpenFindings()
+	gen := rapid.Custom(func(t *rapid.T) string {
+		g := &c14Gen{t: t, open: open, feats: map[string]bool{}}
+		_, text := g.input()
+		return text
+	})
+	for seed := 1; seed <= 300; seed++ {
+		if text := gen.Example(seed); len(text) <= 2048 {
+			f.Add(text)
+		}
+	}
+	for _, text := range []string{`id:"`, "id:@id@+@id@+@id@+@cport@+@cport@", "-id::", "protocol:tcp id:1,3,5,7,9,11,13", `cdata:"(?P<a>x)" then sdata:"@a@"`, "@s:id:1 id:@s:id@+1:", "ltime:@ftime@+5m: sort:-id limit:3 group:\"@sport@\""} {
+		f.Add(text)
+	}
+	f.Fuzz(func(t *testing.T, text string) {
+		if len(text) > 4096 {
+			t.Skip()
+		}
+		est := &c14Estimator{feats: map[string]bool{}}
+		var root *queryRoot
+		func() {
+			defer func() { _ = recover() }() // Parse runs the same grammar first: the oracle below reports the panic
+			if r, err := parser.ParseString("", text); err == nil {
+				root = r
+			}
+		}()
+		if root != nil && root.Term != nil {
+			est.or(root.Term)
+		}
+		if est.tooBig {
+			t.Skip() // promptness is only claimed for moderate normal forms
+		}
+		if open[c14FindingLoneQuote] && c14HasLoneQuoteValue(text) {
+			t.Skip()
+		}
+		if open[c14FindingCommonFactor] {
+			for _, tm := range est.numVars {
+				if c14TermHasCommonFactorShape(tm) {
+					t.Skip()
+				}
+			}
+		}
+		if open[c14FindingFlagSlow] && est.proto && est.maxP > c14FlagSlowLimit {
+			t.Skip()
+		}
+		out, failure := c14Run(text, true, c14Limit())
+		if failure != "" {
+			t.Fatalf("%s; input %q (estimated normal form: %d conjuncts)", failure, text, est.maxP)
+		}
+		if out.panicVal != nil {
+			t.Fatalf("Parse(%q) panics: %v\n%s", text, out.panicVal, out.panicStack)
+		}
+		if (out.err1 == nil) != (out.err2 == nil) {
+			t.Fatalf("two parses of %q disagree: first error %v, second error %v", text, out.err1, out.err2)
+		}
+		if out.err1 != nil {
+			if out.q1 != nil || out.q2 != nil {
+				t.Fatalf("Parse(%q) returned both a query and an error (%v)", text, out.err1)
+			}
+			if out.err1.Error() != out.err2.Error() {
+				t.Fatalf("two parses of %q fail differently: %q vs %q", text, out.err1, out.err2)
+			}
+			return
+		}
+		if out.q1 == nil || out.q2 == nil {
+			t.Fatalf("Parse(%q) returned neither a query nor an error", text)
+		}
+		if msg := c14SameQuery(out.q1, out.q2); msg != "" {
+			t.Fatalf("two parses of %q give different queries: %s", text, msg)
+		}
+	})
+}
+
 // ---------------------------------------------------------------------------------------------
 // probes of known findings / regression cases
 
